@@ -49,13 +49,23 @@ theorem applyTxns_canceled_mono (s : State) (ts : List Txn) (h : s.canceled = tr
 @[simp] theorem ackRow_canceled (s : State) (id : Nat) : (ackRow s id).canceled = s.canceled := rfl
 @[simp] theorem ackRow_stages (s : State) (id : Nat) : (ackRow s id).stages = s.stages := rfl
 
+theorem runTaskGuard_of_canceled (s : State) (id i t : Nat) (h : s.canceled = true) :
+    (runTaskGuard s id i t).isSome = true := by
+  unfold runTaskGuard
+  simp only [h]
+  split <;> simp
+
 /-- a canceled workflow's RunTask never executes the task -/
 theorem handle_not_ran_of_canceled (c : Cfg) (s : State) (row : Row) (h : s.canceled = true) :
     (handle c s row).2 = false := by
   unfold handle
-  cases row.msg <;> simp [hRunTask, h]
-  split <;> simp
-
+  cases hm : row.msg <;> simp only []
+  rename_i i t
+  unfold hRunTask
+  have := runTaskGuard_of_canceled s row.id i t h
+  cases hg : runTaskGuard s row.id i t with
+  | some txns => rfl
+  | none => rw [hg] at this; cases this
 
 theorem recordExec_canceled (c : Cfg) (s : State) (row : Row) : (recordExec c s row).canceled = s.canceled := by
   unfold recordExec; split <;> simp [bumpCount]
@@ -88,5 +98,25 @@ theorem deliverRow_canceled_mono (c : Cfg) (s : State) (row0 : Row) (ack : Bool)
   simp only []
   repeat' split
   all_goals simp [h, h3, h4]
+
+
+/-- with the cancel flag set, the nested delivery of a RunTask degenerates to an ordinary delivery -/
+theorem step_nested_of_canceled (c : Cfg) (s : State) (id : Nat) (inner : List Nat) (h : s.canceled = true) :
+    step c s (.nested id inner) = step c s (.deliver id) := by
+  simp only [step]
+  split
+  · rfl
+  · rename_i row0 hf
+    split
+    · rename_i i t hmsg
+      have hg := runTaskGuard_of_canceled (claimRow s row0.id) row0.id i t (by simpa using h)
+      cases hgg : runTaskGuard (claimRow s row0.id) row0.id i t with
+      | none => rw [hgg] at hg; cases hg
+      | some txns =>
+        simp only []
+        split
+        · unfold deliverRow; simp_all
+        · rfl
+    · rfl
 
 end Stab.Engine
